@@ -72,6 +72,9 @@ struct Worker<'a> {
     set_cat_counts: [u64; 9],
     hook_events: u64,
     orders_full: u64,
+    /// C07: names other than the nine usual ones, per oracle category (a renamed variant)
+    other_names: [Option<String>; 9],
+    saw_standard_name: [bool; 9],
 }
 
 /// The sendable part of a finished worker.
@@ -89,6 +92,8 @@ struct WorkerOut {
     set_cat_counts: [u64; 9],
     hook_events: u64,
     orders_full: u64,
+    other_names: [Option<String>; 9],
+    saw_standard_name: [bool; 9],
 }
 
 fn set_bit(v: &mut [u64], i: usize) {
@@ -128,6 +133,8 @@ impl<'a> Worker<'a> {
             set_cat_counts: [0; 9],
             hook_events: 0,
             orders_full: 0,
+            other_names: Default::default(),
+            saw_standard_name: [false; 9],
         }
     }
 
@@ -147,6 +154,8 @@ impl<'a> Worker<'a> {
             set_cat_counts: self.set_cat_counts,
             hook_events: self.hook_events,
             orders_full: self.orders_full,
+            other_names: self.other_names,
+            saw_standard_name: self.saw_standard_name,
         }
     }
 
@@ -218,6 +227,12 @@ impl<'a> Worker<'a> {
                         && (pm == mh) == (oracle == std::cmp::Ordering::Equal)
                         && (pm < mh) == (oracle == std::cmp::Ordering::Less)
                         && (pm > mh) == (oracle == std::cmp::Ordering::Greater)
+                        && (pm <= mh) == (oracle != std::cmp::Ordering::Greater)
+                        && (pm >= mh) == (oracle != std::cmp::Ordering::Less)
+                        && (pm != mh) == (oracle != std::cmp::Ordering::Equal)
+                        && std::cmp::max(pm, mh).power_index() == pm.power_index().max(idx)
+                        && std::cmp::min(pm, mh).power_index() == pm.power_index().min(idx)
+                        && { let c = mh; c == mh && c.power_index() == idx }
                         && pm.power_index().cmp(&idx) == oracle;
                     if oracle == std::cmp::Ordering::Equal {
                         self.ties_seen += 1;
@@ -238,13 +253,33 @@ impl<'a> Worker<'a> {
             Which::C07 => {
                 let expected = category_name(key);
                 let name = name.unwrap_or_default();
-                if name != expected {
+                let cat = category(key);
+                let mut problem: Option<String> = None;
+                if name == expected {
+                    self.saw_standard_name[cat] = true;
+                    if self.other_names[cat].is_some() {
+                        problem = Some(format!("hands of category {} are reported under two names, {} and {}", expected, name, self.other_names[cat].as_ref().unwrap()));
+                    }
+                } else if CATEGORY_NAMES.contains(&name.as_str()) {
+                    problem = Some(format!("is reported as {} but its best five cards are a {}", name, expected));
+                } else {
+                    // not one of the nine usual names: a renamed variant is fine as long as the nine categories stay
+                    // apart (one name per category, no name shared by two categories)
+                    match &self.other_names[cat] {
+                        None => {
+                            if self.saw_standard_name[cat] || self.other_names.iter().any(|n| n.as_deref() == Some(name.as_str())) {
+                                problem = Some(format!("is reported as {}, a name that does not keep the categories apart (its best five cards are a {})", name, expected));
+                            }
+                            self.other_names[cat] = Some(name.clone());
+                        }
+                        Some(n) if *n == name => {}
+                        Some(n) => problem = Some(format!("hands of category {} are reported under two names, {} and {}", expected, n, name)),
+                    }
+                }
+                if let Some(p) = problem {
                     self.report.violate(
                         format!("category:index={}", idx),
-                        format!(
-                            "{} (power index {}) is reported as {} but its best five cards are a {}",
-                            cards_text(order), idx, name, expected
-                        ),
+                        format!("{} (power index {}) {}", cards_text(order), idx, p),
                         case(),
                     );
                 }
@@ -526,7 +561,19 @@ pub fn run(ctx: &Ctx, which: Which) -> Report {
     let mut weakest = [(0u16, [0u8; 7]); 9];
     let (mut pairs, mut ties, mut new_sets, mut hook_events, mut orders_full) = (0u64, 0u64, 0u64, 0u64, 0u64);
     let mut set_cat_counts = [0u64; 9];
+    let mut other_names: [Option<String>; 9] = Default::default();
+    let mut saw_standard = [false; 9];
     for w in workers {
+        for c in 0..9 {
+            saw_standard[c] |= w.saw_standard_name[c];
+            if let Some(n) = &w.other_names[c] {
+                match &other_names[c] {
+                    None => other_names[c] = Some(n.clone()),
+                    Some(m) if m == n => {}
+                    Some(m) => report.violate(format!("category-names:{}", CATEGORY_NAMES[c]), format!("hands of category {} are reported under two names, {} and {}", CATEGORY_NAMES[c], m, n), Json::Null),
+                }
+            }
+        }
         for (a, b) in flush_slots.iter_mut().zip(w.flush_slots.iter()) {
             *a |= *b;
         }
@@ -552,6 +599,14 @@ pub fn run(ctx: &Ctx, which: Which) -> Report {
         hook_events += w.hook_events;
         orders_full += w.orders_full;
         report.merge(w.report);
+    }
+    for c in 0..9 {
+        if let Some(n) = &other_names[c] {
+            if saw_standard[c] || (0..9).any(|d| d != c && other_names[d].as_deref() == Some(n.as_str())) {
+                report.violate(format!("category-names:{}", CATEGORY_NAMES[c]), format!("the name {} does not keep category {} apart from the others", n, CATEGORY_NAMES[c]), Json::Null);
+            }
+            report.set(&format!("renamed_category_{}", CATEGORY_NAMES[c]), Json::str(n.clone()));
+        }
     }
     report.distinct_extra = new_sets;
     report.rule = "executions of MadeHand::from observed by the best-of-21 five-card oracle; distinct = distinct seven-card sets, counted with a 133,784,560-bit map indexed by the combinatorial rank of the set (every set is non-trivial: the property quantifies over all of them); each set is presented in a seed-hashed order, selected sets in all 5040 orders".into();
@@ -586,8 +641,10 @@ pub fn run(ctx: &Ctx, which: Which) -> Report {
     }
     // the same evaluator built with overflow checks and debug assertions
     dev_pass(ctx, which, &mut report);
-    pool_stress(ctx, which, &mut report);
-    super::firstuse::run_children(ctx, "eval", 24, &mut report);
+    // the category names this build uses (a renamed variant is no alarm as long as the categories stay apart)
+    let vocabulary: Vec<String> = (0..9).map(|c| other_names[c].clone().unwrap_or_else(|| CATEGORY_NAMES[c].to_string())).collect();
+    pool_stress(ctx, which, &vocabulary, &mut report);
+    super::firstuse::run_children_with(ctx, "eval", 24, &vocabulary, &mut report);
     if thorough {
         // the oracle must reproduce the published category frequencies over all sets
         report.set("oracle_category_frequencies_over_all_sets", Json::arr(set_cat_counts.iter().map(|c| Json::Int(*c as i128))));
@@ -629,20 +686,20 @@ pub fn run(ctx: &Ctx, which: Which) -> Report {
 /// Many threads evaluating a small pool of hands over and over, each result compared with the oracle:
 /// evaluation must stay a function of the seven cards when it is called concurrently (a shared memo or
 /// cache inside the evaluator would have to get every concurrent publication right).
-fn pool_stress(ctx: &Ctx, which: Which, report: &mut Report) {
+fn pool_stress(ctx: &Ctx, which: Which, vocabulary: &[String], report: &mut Report) {
     let table = ClassTable::get();
     let threads = crate::util::threads().max(2);
     let per_thread: u64 = ctx.tier.pick(600_000, 6_000_000);
     let mut total = 0u64;
     for (pi, pool_size) in [2usize, 16, 256, 4096, 65_536].iter().enumerate() {
         let mut rng = Rng::derive(ctx.seed, "c01-pool", pi as u64);
-        let pool: Vec<([Card; 7], u16, [u8; 7], &'static str)> = (0..*pool_size)
+        let pool: Vec<([Card; 7], u16, [u8; 7], &str)> = (0..*pool_size)
             .map(|_| {
                 let s = rng.sample(52, 7);
                 let ids = [s[0] as u8, s[1] as u8, s[2] as u8, s[3] as u8, s[4] as u8, s[5] as u8, s[6] as u8];
                 let cards = [card(ids[0]), card(ids[1]), card(ids[2]), card(ids[3]), card(ids[4]), card(ids[5]), card(ids[6])];
                 let key = best7(&sorted7(ids));
-                (cards, table.class_of(key), ids, category_name(key))
+                (cards, table.class_of(key), ids, vocabulary[category(key)].as_str())
             })
             .collect();
         let pool = &pool;
